@@ -14,6 +14,11 @@ open Gen_mani
 let rec pos_of_int (i : int) : positive =
   if i = 1 then XH else if i land 1 = 0 then XO (pos_of_int (i lsr 1)) else XI (pos_of_int (i lsr 1))
 let n_of_int (i : int) : n = if i = 0 then N0 else Npos (pos_of_int i)
+(* decimal strings beyond OCaml's 63-bit ints (ratios up to 2^64-1) *)
+let n_of_decimal (s : string) : n =
+  let acc = ref N0 in
+  String.iter (fun c -> acc := N.add (N.mul !acc (n_of_int 10)) (n_of_int (Char.code c - 48))) s;
+  !acc
 let rec int_of_pos = function XH -> 1 | XO p -> 2 * int_of_pos p | XI p -> 2 * int_of_pos p + 1
 let int_of_n = function N0 -> 0 | Npos p -> int_of_pos p
 let rec nat_of_int i = if i <= 0 then O else S (nat_of_int (i - 1))
@@ -127,7 +132,7 @@ let () =
         end else
         match parts with
         | hd :: ops when String.length hd > 6 && String.sub hd 0 6 = "ratio=" ->
-            let ratio = n_of_int (int_of_string (String.sub hd 6 (String.length hd - 6))) in
+            let ratio = n_of_decimal (String.sub hd 6 (String.length hd - 6)) in
             let ops = List.map (fun s -> parse_op (words s)) ops in
             let outs = run_case crc ratio ops in
             print_endline (String.concat " ;; " (List.map (fun l -> String.concat " | " (List.map show_out l)) outs))
